@@ -12,15 +12,15 @@ from vf.props import common, c04
 from vf.run import Job, Result
 
 ID = 'C11'
-RULE = ('A generated ledger (G1, either attribution mode, optionally after a short claim/unclaim program so that placeholders have moved); a model '
-        'chosen by selector at any depth (sweep job: every sub-model of each document) is deep-copied; then an edit program of 1-6 operations from '
-        'every family is applied to the copy and another to the original. Oracle: copy == original and original == copy; same printed text; no '
+RULE = ('A generated ledger (G1, either attribution mode, optionally after a short claim/unclaim program so that placeholders have moved); '
+        'in a share of the cases some models get a non-default indent_by first; a model chosen by selector at any depth (sweep job: every sub-model of each document) is deep-copied; then an edit program of 1-6 operations from '
+        'every family is applied to the copy and another to the original. Oracle: copy == original and original == copy; same printed text; same indent_by and claimed flags on corresponding sub-models; no '
         'shared token; the copy satisfies the structural invariants in its own store and spans it entirely; editing the copy leaves the original '
         'document\'s snapshot (text, token identities, structure, flags) unchanged and editing the original leaves the copy\'s snapshot unchanged. '
         'Non-trivial = the copied model is not the root, has >= 1 tree-model child, and a structural edit was applied inside the copy.')
 ASSUMPTIONS = ['edit programs for the copy are generated against a scratch copy of the same model (state-aware), then replayed']
-SHRINK_LISTS = ('ops', 'ops2', 'pre', 'dirs')
-REQUIRED_CLASSES = ('claim:on', 'claim:off', 'after-claim-program', 'depth>=2', 'edited-copy', 'edited-original', 'token-copy')
+SHRINK_LISTS = ('ops', 'ops2', 'pre', 'indent_by', 'dirs')
+REQUIRED_CLASSES = ('indent_by-set', 'claim:on', 'claim:off', 'after-claim-program', 'depth>=2', 'edited-copy', 'edited-original', 'token-copy')
 
 
 def check_copy(m: Any, cp: Any, what: str) -> list:
@@ -31,6 +31,21 @@ def check_copy(m: Any, cp: Any, what: str) -> list:
             bad.append((f'not-equal:{key}', f'{what}: deepcopy of {key} {O.print_text(m)!r} does not compare equal to the original'))
     except Exception as e:  # noqa: BLE001
         bad.append((f'eq-raised:{key}', f'{what}: comparing the copy raised {e!r}'))
+    if not isinstance(m, base.RawTokenModel):
+        # data that is not text: every corresponding sub-model carries the same settings
+        try:
+            for (a, _), (b, _) in zip(O.walk(m), O.walk(cp)):
+                if type(a) is not type(b):
+                    bad.append((f'structure:{key}', f'{what}: the copy has a {type(b).__name__} where the original has a {type(a).__name__}'))
+                    break
+                if hasattr(type(a), 'indent_by') and a.indent_by != b.indent_by:
+                    bad.append((f'data:indent_by:{type(a).__name__}', f'{what}: {type(a).__name__}.indent_by is {a.indent_by!r} in the original and {b.indent_by!r} in the copy of {key}'))
+                    break
+                if type(a).__name__ == 'BlockComment' and a.claimed != b.claimed:
+                    bad.append((f'data:claimed:{key}', f'{what}: a comment\'s claimed flag is {a.claimed} in the original and {b.claimed} in the copy'))
+                    break
+        except Exception as e:  # noqa: BLE001
+            bad.append((f'walk-raised:{key}', f'{what}: walking the copy raised {e!r}'))
     if O.print_text(cp) != O.print_text(m):
         bad.append((f'text:{key}', f'{what}: copy prints {O.print_text(cp)!r}, original spans {O.print_text(m)!r}'))
     if isinstance(m, base.RawTokenModel):
@@ -63,6 +78,13 @@ def run_case(case: dict) -> Result:
                 c04._act(root, OPS.index_models(root), op, set())
             except Exception:  # noqa: BLE001
                 pass
+    if case.get('indent_by'):
+        # settings that are not text (documented attribute, docs/special/indents.md) travel with a copy too
+        holders = [m for m, _ in O.walk(root) if hasattr(type(m), 'indent_by')]
+        for sel, text in case['indent_by']:
+            if holders:
+                holders[sel % len(holders)].indent_by = text
+                classes.add('indent_by-set')
     if case.get('sweep'):
         for m, d in O.walk(root):
             if isinstance(m, O.Repeated):
@@ -150,11 +172,17 @@ def _build(tier: str, sweep: bool):
         if g.p(0.4):
             for _ in range(g.n(1, 5)):
                 case['pre'].append({'f': 'read', 'what': 'claim', 'mi': g.n(0, 30), 'op': g.pick(c04.CLAIM_OPS), 'ignore': True, 'li': g.n(0, 1)})
+        if g.p(0.4):
+            case['indent_by'] = [[g.n(0, 60), g.pick(['  ', '\t', ' ', '', '        ', ' \t'])] for _ in range(g.n(1, 4))]
         if sweep:
             case['sweep'] = True
             return case
         try:
             root = common.parse_file(L.text_of(chunks), claim)
+            for sel, text in case.get('indent_by', []):
+                holders = [m for m, _ in O.walk(root) if hasattr(type(m), 'indent_by')]
+                if holders:
+                    holders[sel % len(holders)].indent_by = text
             for op in case['pre']:
                 try:
                     c04._act(root, OPS.index_models(root), op, set())
